@@ -41,13 +41,13 @@ def generate(ctx):
     for it in range(n):
         m = ctx.rng.random()
         if m < 0.45:  # general games: clauses a, b
-            regime = ctx.rng.choice(["round_numbers", "mismatch", "mismatch", "mismatch", "typical", "wide", "huge_sigma", "tiny_sigma",
+            regime = ctx.rng.choice(["round_numbers", "coincidences", "mismatch", "mismatch", "mismatch", "typical", "wide", "huge_sigma", "tiny_sigma",
                                      "corners", "equal_size"])
             # every encoding of the outcome (ints, floats, huge values, scores): the clauses are about the weak order
             case, meta = gen.gen_case(ctx.rng, regime=regime)
             yield "ab", dict(case=case, meta=meta)
         elif m < 0.65:  # two teams, three outcomes
-            regime = ctx.rng.choice(["round_numbers", "mismatch", "mismatch", "typical", "wide", "huge_sigma", "tiny_sigma", "identical"])
+            regime = ctx.rng.choice(["round_numbers", "coincidences", "mismatch", "mismatch", "typical", "wide", "huge_sigma", "tiny_sigma", "identical"])
             case, meta = gen.gen_case(ctx.rng, regime=regime, kmax=2, int_only=True)
             enc, style = gen.encode_levels(ctx.rng, [0, 1])
             yield "wdl", dict(case=case, meta=meta, enc=enc, as_scores=ctx.rng.random() < 0.3)
